@@ -18,6 +18,9 @@ Proof.
   - apply (pathA_perm_S key Z.eqb Z.leb Z.eqb_eq Zleb_total Zleb_trans Zleb_antisym).
 Qed.
 
+Theorem window_forwarding : window_forwarding_ok = true.
+Proof. reflexivity. Qed.
+
 Theorem code_shape :
   code_shape_ok = true /\
   forall c i m o, gen_sort_path c i m o = path_is_sort (choose_path c i m o).
